@@ -364,6 +364,12 @@ class PointTier(textgrid_tier.TextgridTier):
 
         self.sort()
 
+        if self._entries[0].time < self.minTimestamp:
+            self.minTimestamp = self._entries[0].time
+
+        if self._entries[-1].time > self.maxTimestamp:
+            self.maxTimestamp = self._entries[-1].time
+
         if len(matchList) != 0:
             collisionReporter(
                 errors.CollisionError,
